@@ -21,7 +21,7 @@ during whose command processing `consume` took effect. -/
 theorem key_routing (o : Oracle) (fuel : Nat) (s : St) (ev : Ev) (hev : Routable ev) :
     ∃ t, (handleEvent o fuel s ev).trace = s.trace ++ t ∧
       conforms ev s.focused (planOf o.captures s.path .focusTgt) t = true := by
-  obtain ⟨t, ht, _, _, _, hc⟩ :=
+  obtain ⟨t, ht, _, _, hc⟩ :=
     dispatch_conforms hev o fuel s.path (fun s => s.focused) .focusTgt (fun _ => rfl) s
   exact ⟨t, ht, hc⟩
 
@@ -57,21 +57,30 @@ example :
 
 /-- **path_correct** (focused widget drawn). After a frame that drew `t`, `updatePath` calls no
 handler and leaves `path` = the root-to-focused chain of the first (pre-order) surface of the
-focused widget, prefixed by the root widget when the root surface belongs to another widget. -/
+focused widget, prefixed by the root widget when the root surface belongs to another widget; the
+frame is remembered for later focus changes. -/
 theorem path_correct (o : Oracle) (fuel : Nat) (s : St) (t : STree) (p : List Id)
     (h : chain s.focused t = some p) :
-    updatePath o fuel s t = { s with path := expectedPath s.root t s.focused } :=
+    updatePath o fuel s t = { s with fhFrame := some t, path := expectedPath s.root t s.focused } :=
   updatePath_found o fuel s t p h
 
-/-- **path_correct** (focused widget not drawn): best-effort refocus of the root widget, and
-`path = [root]`. -/
+/-- **path_correct** (focused widget not drawn): `path := [root]`, then the best-effort refocus
+of the root widget — which recomputes the path like every focus change. -/
 theorem path_correct_refocus (o : Oracle) (fuel : Nat) (s : St) (t : STree)
     (h : chain s.focused t = none) :
-    (updatePath o fuel s t).path = expectedPath s.root t s.focused ∧
-    (updatePath o fuel s t).trace = (focusWidget o fuel { s with path := [] } s.root).trace ∧
-    (updatePath o fuel s t).focused = (focusWidget o fuel { s with path := [] } s.root).focused := by
-  have := updatePath_notfound o fuel s t h
-  simpa [expectedPath, h] using this
+    updatePath o fuel s t = focusWidget o fuel { s with fhFrame := some t, path := [s.root] } s.root :=
+  updatePath_notfound o fuel s t h
+
+/-- **path_correct**, all cases: after `updatePath` the path is the drawn chain (in the frame just
+drawn) of the widget that is focused *then* — also when the best-effort refocus or a FocusIn /
+FocusOut handler called by it moved the focus again — or `[root]` if that widget is not drawn. -/
+theorem path_correct_always (o : Oracle) (fuel : Nat) (s : St) (t : STree) :
+    (updatePath o fuel s t).path = expectedPath s.root t (updatePath o fuel s t).focused := by
+  obtain ⟨h1, h2⟩ := pathInv_updatePath o fuel s t
+  have h3 := updatePath_root o fuel s t
+  unfold PathInv drawnPath at h1
+  rw [h2, h3] at h1
+  exact h1
 
 /-- Routing right after a frame: over the drawn chain of the focused widget. -/
 theorem key_routing_after_frame (o o' : Oracle) (fuel : Nat) (s : St) (t : STree) (p : List Id)
@@ -84,10 +93,9 @@ theorem key_routing_after_frame (o o' : Oracle) (fuel : Nat) (s : St) (t : STree
 example : chain 2 (.node 0 9 9 [(0, 0, 0, .node 1 3 3 [(0, 0, 0, .node 2 1 1 [])])]) = some [0, 1, 2] := by decide
 
 
-/-- The reading of the property over *drawn* trees — after a frame that drew `t` and any command,
-a dispatchable event is routed along the drawn chain of the widget that is focused now — is
-false of the code (`Witness/F115a.lean`): `focusWidget` does not touch `path`. What holds is
-`key_routing` (over the stored path) and `key_routing_after_frame`. -/
+/-- The reading of the property over *drawn* trees: after a frame that drew `t` and any command,
+a dispatchable event is routed along the drawn chain of the widget that is focused now. (False
+before the repair of F115a: `Witness/F115a.lean` shows the pre-fix `focusWidget` violating it.) -/
 def key_routing_drawn_full : Prop :=
   ∀ (o : Oracle) (fuel : Nat) (s : St) (t : STree) (c : Cmd) (ev : Ev), Routable ev →
     ∀ p, chain (handleCommand o fuel (updatePath o fuel s t) c).focused t = some p →
@@ -97,45 +105,93 @@ def key_routing_drawn_full : Prop :=
           (planOf o.captures (expectedPath s.root t (handleCommand o fuel (updatePath o fuel s t) c).focused) .focusTgt)
           tr = true
 
-/-- **focus_change_once** (history form). If no widget answers a FocusOut notification with a
-focus command, then whatever a command does — including focus changes nested in FocusIn
-handlers — the focus notifications it produces come in pairs FocusOut(current) … FocusIn(new),
-and the focused widget at the end is the receiver of the last FocusIn. -/
-theorem focus_change_once (o : Oracle) (hno : NoRefocusOnOut o) (fuel : Nat) (s : St) (c : Cmd) :
-    ∃ t, (handleCommand o fuel s c).trace = s.trace ++ t ∧
-      focusRun s.focused false t = some (handleCommand o fuel s c).focused :=
-  (focusGood_handleCommand o hno fuel).pairs s c
+/-- **key_routing over the drawn chain** (frame, then any command — focus changes included). -/
+theorem key_routing_drawn_cmd : key_routing_drawn_full := by
+  intro o fuel s t c ev hev p _
+  obtain ⟨h1, h2⟩ := pathInv_updatePath o fuel s t
+  have h3 := updatePath_root o fuel s t
+  have hx := ext_handleCommand hev o fuel (updatePath o fuel s t) c
+  have hp := hx.pinv h1
+  unfold PathInv drawnPath at hp
+  rw [hx.fhFrame, h2, hx.root, h3] at hp
+  have := key_routing o fuel (handleCommand o fuel (updatePath o fuel s t) c) ev hev
+  rw [hp] at this
+  exact this
 
-/-- **focus_change_once** (single change). A focus command to a different widget whose two
-notifications are not answered with further focus commands: exactly one FocusOut to the old
-widget, then `focused := w`, then exactly one FocusIn to the new one; the effects of both
-answers happen exactly once, in place. -/
-theorem focus_change_single (o : Oracle) (fuel : Nat) (s : St) (w : Id) (hne : s.focused ≠ w)
-    (h1 : NoFocusAtoms (o.h s.focused .focusOut .target s.calls))
-    (h2 : NoFocusAtoms (o.h w .focusIn .target (s.calls + 1))) :
-    (handleCommand o (fuel + 2) s (.focus w)).trace =
-      s.trace ++ [.call s.focused .focusOut .target] ++
-        effsOf (o.h s.focused .focusOut .target s.calls).flatten ++
-        [.eff (.focusSet w), .call w .focusIn .target] ++
-        effsOf (o.h w .focusIn .target (s.calls + 1)).flatten ∧
-    (handleCommand o (fuel + 2) s (.focus w)).focused = w := by
-  simp only [handleCommand, Cmd.flatten, List.foldl_cons, List.foldl_nil, execAtom, focusWidgetWith,
-    if_neg hne, Model.Vxfw.call]
-  rw [foldl_nofocus _ o _ h1]
-  simp only []
-  rw [foldl_nofocus _ o _ h2]
-  simp
+/-- **path invariant.** At every point of every history of the Run loop (Init, any events, any
+frames, any widget behaviour) `path` is the drawn chain — in the last frame rendered — of the
+widget that is focused now, or `[root]` if that widget is not in the last frame (or there is no
+frame yet). -/
+theorem path_is_drawn_chain (o : Oracle) (fuel : Nat) (root : Id) (t0 : STree) (steps : List Step) :
+    (runSteps o fuel (runInit o fuel root t0) steps).path =
+      drawnPath (runSteps o fuel (runInit o fuel root t0) steps) :=
+  pinv_runSteps o fuel steps _ (pinv_runInit o fuel root t0)
 
-/-- The full statement (no hypothesis on the oracle) is false of the code: see
-`Witness/F115b.lean` (a FocusOut handler that returns a focus command). -/
+/-- **key_routing over the drawn chain, at all times.** After any history of the Run loop, the
+next key / custom event is offered: capture along the drawn chain (last frame) of the focused
+widget root first, target = the focused widget, bubble along the chain nearest first, stopping
+at the first consumed offer. No hypothesis on the history, the trees or the handlers. -/
+theorem key_routing_drawn (o : Oracle) (fuel : Nat) (root : Id) (t0 : STree) (steps : List Step)
+    (ev : Ev) (hev : Routable ev) :
+    ∃ tr, (handleEvent o fuel (runSteps o fuel (runInit o fuel root t0) steps) ev).trace =
+        (runSteps o fuel (runInit o fuel root t0) steps).trace ++ tr ∧
+      conforms ev (runSteps o fuel (runInit o fuel root t0) steps).focused
+        (planOf o.captures (drawnPath (runSteps o fuel (runInit o fuel root t0) steps)) .focusTgt) tr = true := by
+  have := key_routing o fuel (runSteps o fuel (runInit o fuel root t0) steps) ev hev
+  rw [path_is_drawn_chain] at this
+  exact this
+
+/-- Non-vacuity: frame 0→{1,2}, a key handler answers `focus 1`; the next key is captured by /
+bubbles to 0 although no frame was drawn in between (the F115a scenario). -/
+example :
+    ((runSteps ⟨fun _ ev ph _ => if ev = .key 1 ∧ ph = .target then .focus 1 else .nil, fun _ => true⟩ 5
+      (runInit ⟨fun _ _ _ _ => .nil, fun _ => true⟩ 5 0 (.node 0 9 9 []))
+      [.ev .resize, .frame (.node 0 9 9 [(0, 0, 0, .node 1 3 3 []), (4, 0, 0, .node 2 3 3 [])]) (.node 0 0 0 []),
+       .ev (.key 1), .ev (.key 2)]).trace.filter (fun e => isRouted (.key 2) e)) =
+    [.call 0 (.key 2) .capture, .call 1 (.key 2) .capture, .call 1 (.key 2) .target, .call 0 (.key 2) .bubble] := by
+  decide
+
+/-- **focus_change_once** (history form, every handler behaviour). Whatever a command does —
+including focus changes nested in FocusOut or FocusIn handlers — the focus notifications it
+produces come in pairs FocusOut(current) … FocusIn(new), and the focused widget at the end is
+the receiver of the last FocusIn. (False before the repair of F115b, `Witness/F115b.lean`.) -/
 def focus_change_once_full : Prop :=
   ∀ (o : Oracle) (fuel : Nat) (s : St) (c : Cmd),
     ∃ t, (handleCommand o fuel s c).trace = s.trace ++ t ∧
       focusRun s.focused false t = some (handleCommand o fuel s c).focused
 
-/-- Non-vacuity: an oracle meeting `NoRefocusOnOut` that does refocus inside FocusIn. -/
+theorem focus_change_once : focus_change_once_full :=
+  fun o fuel s c => (focusGood_handleCommand o fuel).pairs s c
+
+/-- **focus_change_once** (single change). A focus command to a different widget whose two
+notifications are not answered with further focus commands: exactly one FocusOut to the old
+widget, `focused := w`, exactly one FocusIn to the new one, then the effects of the FocusOut
+answer and of the FocusIn answer, once each, in that order. -/
+theorem focus_change_single (o : Oracle) (fuel : Nat) (s : St) (w : Id) (hne : s.focused ≠ w)
+    (h1 : NoFocusAtoms (o.h s.focused .focusOut .target s.calls))
+    (h2 : NoFocusAtoms (o.h w .focusIn .target (s.calls + 1))) :
+    (handleCommand o (fuel + 2) s (.focus w)).trace =
+      s.trace ++ [.call s.focused .focusOut .target, .eff (.focusSet w), .call w .focusIn .target] ++
+        effsOf (o.h s.focused .focusOut .target s.calls).flatten ++
+        effsOf (o.h w .focusIn .target (s.calls + 1)).flatten ∧
+    (handleCommand o (fuel + 2) s (.focus w)).focused = w := by
+  simp only [handleCommand, Cmd.flatten, List.foldl_cons, List.foldl_nil, execAtom, focusWidgetWith,
+    if_neg hne, Model.Vxfw.call, findPath]
+  rw [foldl_nofocus _ o _ h1]
+  simp only []
+  rw [foldl_nofocus _ o _ h2]
+  simp
+
+/-- Non-vacuity: refocus inside FocusIn, and inside FocusOut (the F115b scenario: the old widget
+answers FocusOut with `focus 2`; it gets one FocusOut, 1 gets FocusIn and FocusOut, 2 ends focused). -/
 example :
     (handleCommand ⟨fun w ev _ _ => if w = 1 ∧ ev = .focusIn then .focus 2 else .nil, fun _ => false⟩ 5
+      (St.init 0) (.focus 1)).trace =
+    [.call 0 .focusOut .target, .eff (.focusSet 1), .call 1 .focusIn .target,
+     .call 1 .focusOut .target, .eff (.focusSet 2), .call 2 .focusIn .target] := by decide
+
+example :
+    (handleCommand ⟨fun w ev _ _ => if w = 0 ∧ ev = .focusOut then .focus 2 else .nil, fun _ => false⟩ 5
       (St.init 0) (.focus 1)).trace =
     [.call 0 .focusOut .target, .eff (.focusSet 1), .call 1 .focusIn .target,
      .call 1 .focusOut .target, .eff (.focusSet 2), .call 2 .focusIn .target] := by decide
@@ -160,7 +216,7 @@ theorem mouse_routing (o : Oracle) (fuel : Nat) (s : St) (col row : Int) :
   cases hl : s1.lastHits.getLast? with
   | none => exact ⟨[], by simp, rfl⟩
   | some tg =>
-    obtain ⟨t, ht, _, _, _, hc⟩ := dispatch_conforms (ev := .mouse col row) ⟨by simp, by simp⟩ o fuel
+    obtain ⟨t, ht, _, _, hc⟩ := dispatch_conforms (ev := .mouse col row) ⟨by simp, by simp⟩ o fuel
       (s1.lastHits.map (·.w)) (fun _ => tg.w) (.tgt tg.w) (fun _ => rfl) s1
     exact ⟨t, ht, hc⟩
 
@@ -234,9 +290,11 @@ example : Cmd.flatten (.batch [.redraw, .slice [.consume, .batch [.other 3]], .f
     [.redraw, .consume, .other 3, .focus 2] := by decide
 
 
-/-- The full hover statement: for every history of the Run loop, the MouseEnter / MouseLeave
-notifications alternate per widget. False of the code (`Witness/F43.lean`): a terminal FocusIn
-sends the root a MouseEnter the hit list does not know about. -/
+/-- The full hover statement: for every history of the Run loop — terminal FocusIn / FocusOut
+events included — the MouseEnter / MouseLeave notifications alternate per widget. (False before
+the repair of F43, `Witness/F43.lean`.) The hypothesis on the trees is a precondition of the
+property ("widget trees": a widget is drawn once); `hover_needs_distinct` shows what happens
+otherwise. -/
 def hover_alternates_full : Prop :=
   ∀ (o : Oracle) (fuel : Nat) (root : Id) (t0 : STree) (steps : List Step),
     HitsNodup t0 → (∀ st ∈ steps, match st with
@@ -244,18 +302,28 @@ def hover_alternates_full : Prop :=
       | .frame t1 t2 => HitsNodup t1 ∧ HitsNodup (sortTree t1) ∧ HitsNodup (sortTree t2)) →
     (hoverRun [] (runSteps o fuel (runInit o fuel root t0) steps).trace).isSome
 
-/-- **hover_alternates** (partial: histories without terminal FocusIn events; every drawn tree
-shows each widget at most once under any point). Over the whole history of the Run loop — Init,
+/-- **hover_alternates** (every drawn tree shows each widget at most once under any point; any
+events — terminal FocusIn and FocusOut included). Over the whole history of the Run loop — Init,
 any events, any frames, any widget behaviour — the MouseEnter/MouseLeave notifications of each
 widget alternate starting with Enter, and the widgets whose last notification is Enter are
 exactly the widgets of the mouse handler's hit list. -/
-theorem hover_alternates_partial (o : Oracle) (fuel : Nat) (root : Id) (t0 : STree) (steps : List Step)
+theorem hover_alternates (o : Oracle) (fuel : Nat) (root : Id) (t0 : STree) (steps : List Step)
     (h0 : HitsNodup t0) (hs : ∀ st ∈ steps, StepOk st) :
     ∃ hs, hoverRun [] (runSteps o fuel (runInit o fuel root t0) steps).trace = some hs ∧
       ∀ w, w ∈ hs ↔ w ∈ (runSteps o fuel (runInit o fuel root t0) steps).lastHits.map Hit.w := by
   obtain ⟨hi, hf⟩ := hov_runInit o fuel root t0 h0
   obtain ⟨⟨hs', hr, _, _, hm⟩, _⟩ := hov_runSteps o fuel steps hs _ hf hi
   exact ⟨hs', hr, hm⟩
+
+theorem hover_alternates_full_holds : hover_alternates_full := by
+  intro o fuel root t0 steps h0 hs
+  obtain ⟨hs', hr, _⟩ := hover_alternates o fuel root t0 steps h0
+    (fun st hst => by
+      have := hs st hst
+      cases st with
+      | ev e => trivial
+      | frame t1 t2 => exact this)
+  rw [hr]; rfl
 
 /-- … and are all closed when terminal focus leaves: after a FocusOut event every widget's last
 hover notification is MouseLeave. -/
@@ -293,11 +361,11 @@ requirements at a sample point, and hover notifications really occur. -/
 example :
     (runSteps ⟨fun _ _ _ _ => .redraw, fun _ => false⟩ 4
       (runInit ⟨fun _ _ _ _ => .redraw, fun _ => false⟩ 4 0 (.node 0 9 9 [(1, 1, 0, .node 1 3 3 [])]))
-      [.ev (.mouse 2 2), .ev (.mouse 7 7), .ev .focusOut]).trace.filter
+      [.ev (.mouse 2 2), .ev (.mouse 7 7), .ev .focusOut, .ev .focusIn, .ev (.mouse 0 0), .ev .focusOut]).trace.filter
         (fun e => isRouted .mouseEnter e || isRouted .mouseLeave e) =
     [.call 0 .mouseEnter .target, .call 1 .mouseEnter .target,
      .call 0 .mouseLeave .target, .call 1 .mouseLeave .target, .call 0 .mouseEnter .target,
-     .call 0 .mouseLeave .target] := by decide
+     .call 0 .mouseLeave .target, .call 0 .mouseEnter .target, .call 0 .mouseLeave .target] := by decide
 
 
 /-- **hover_alternates** in terms of the trees themselves: it suffices that every drawn tree shows
@@ -307,19 +375,24 @@ theorem hover_alternates_distinct (o : Oracle) (fuel : Nat) (root : Id) (t0 : ST
     (∃ hs, hoverRun [] (runSteps o fuel (runInit o fuel root t0) steps).trace = some hs ∧
       ∀ w, w ∈ hs ↔ w ∈ (runSteps o fuel (runInit o fuel root t0) steps).lastHits.map Hit.w) ∧
     hoverRun [] (runEvent o fuel (runSteps o fuel (runInit o fuel root t0) steps) .focusOut).trace = some [] :=
-  ⟨hover_alternates_partial o fuel root t0 steps (hitsNodup_of_ids t0 h0) (fun st h => StepOk.of_distinct (hs st h)),
+  ⟨hover_alternates o fuel root t0 steps (hitsNodup_of_ids t0 h0) (fun st h => StepOk.of_distinct (hs st h)),
    hover_closed_on_focus_out o fuel root t0 steps (hitsNodup_of_ids t0 h0) (fun st h => StepOk.of_distinct (hs st h))⟩
 
 example : (ids (.node 0 9 9 [(1, 1, 0, .node 1 3 3 []), (0, 0, 1, .node 2 3 3 [(0, 0, 0, .node 3 1 1 [])])])).Nodup := by
   decide
 
 
-/-- Why the hover theorems need "each widget at most once under a point": a widget drawn inside
-its own surface is hit twice and gets MouseEnter twice in a row (observation, not part of the
-property's quantifier: trees there have distinct widgets). -/
-example :
+/-- Why the hover theorems need "each widget at most once under a point" (the precondition the
+drivers check on every generated tree, `treeDistinct`): a widget drawn inside its own surface is
+hit twice and gets MouseEnter twice in a row — notifications are per hit result, not per widget. -/
+theorem hover_needs_distinct :
+    ¬ HitsNodup (.node 0 9 9 [(0, 0, 0, .node 0 3 3 [])]) ∧
     hoverRun [] (runSteps ⟨fun _ _ _ _ => .nil, fun _ => false⟩ 4
       (runInit ⟨fun _ _ _ _ => .nil, fun _ => false⟩ 4 0 (.node 0 9 9 [(0, 0, 0, .node 0 3 3 [])]))
-      [.ev (.mouse 1 1)]).trace = none := by decide
+      [.ev (.mouse 1 1)]).trace = none := by
+  refine ⟨fun h => ?_, by decide⟩
+  have := h 1 1
+  revert this
+  decide
 
 end VaxisModel.Props.C15
